@@ -18,6 +18,7 @@ pub static DEF: PropDef = PropDef {
     ],
     run,
     replay,
+    fuzz: None,
 };
 
 #[derive(Serialize, Deserialize, Debug, Clone)]
